@@ -1211,6 +1211,10 @@ def check_blt(prop, tier):
     texts += [(t, None) for t in blt.edge_texts(rng)]
     if prop == 'C16' or tier == 'thorough':
         texts += [(t, None) for t in blt.fuzz_texts(rng, nfz)]
+        # ... and, without sampling, every single-word edit of the base files over a core alphabet (the full one in the thorough tier)
+        sysx = blt.systematic_texts(blt.ALPHABET if tier == 'thorough' else None, None if tier == 'thorough' else blt.BASES[:3])
+        seen = set(t for t, _ in texts)
+        texts += [(t, None) for t in dict.fromkeys(sysx) if t not in seen]
     else:
         texts += [(t, None) for t in blt.fuzz_texts(rng, 150)]
     for text, want in texts:
